@@ -28,9 +28,11 @@ class Chooser:
         self.points = []       # (n_options, choice, tags)
         self.batch = batch
 
-    def choose(self, tags, altcost=1):
+    def choose(self, tags, altcost=1, state=None):
         """tags: the options in canonical order (option 0 = default).  altcost: what taking a
-        non-default option costs against the deviation/preemption bound (0 = free)."""
+        non-default option costs against the deviation/preemption bound (0 = free).  state: an
+        optional canonical hash of the global state at this decision point (explicit-state
+        pruning, see explore(seen=...))."""
         n = len(tags)
         nopt = n + (n * (n - 1) if self.batch else 0)
         if nopt <= 1:
@@ -39,7 +41,7 @@ class Chooser:
         c = self.prefix[i] if i < len(self.prefix) else 0
         if c >= nopt:
             raise ReplayDivergence(f"point {i}: choice {c} but only {nopt} options {tags}")
-        self.points.append((nopt, c, tuple(tags), altcost))
+        self.points.append((nopt, c, tuple(tags), altcost, state))
         return c
 
     @property
@@ -160,7 +162,8 @@ class VPolicy(asyncio.DefaultEventLoopPolicy):
         return self.vloop
 
 
-def explore(run_fn, bound=None, batch=False, max_execs=None, on_exec=None, roots=None):
+def explore(run_fn, bound=None, batch=False, max_execs=None, on_exec=None, roots=None,
+            seen=None):
     """Stateless DFS over choice prefixes with deviation/preemption bounding.
     run_fn(chooser) runs one complete execution.  `roots`: prefixes to start from (default: the
     empty prefix); the subtree of a root contains exactly the schedules that extend it at later
@@ -169,6 +172,8 @@ def explore(run_fn, bound=None, batch=False, max_execs=None, on_exec=None, roots
     execs = 0
     maxpoints = 0
     capped = False
+    pruned = 0
+    INF = float("inf")
     while stack:
         prefix = stack.pop()
         ch = Chooser(prefix, batch)
@@ -182,7 +187,15 @@ def explore(run_fn, bound=None, batch=False, max_execs=None, on_exec=None, roots
                                    f"{len(ch.points)}")
         cost = sum(p[3] for p in ch.points[:len(prefix)] if p[1])
         for i in range(len(prefix), len(ch.points)):
-            nopt, _c, _tags, altcost = ch.points[i]
+            nopt, _c, _tags, altcost, state = ch.points[i]
+            if seen is not None and state is not None:
+                # explicit-state pruning: a global state reached before with at least as much
+                # budget left has (or will have) all its continuations explored from there
+                left = INF if bound is None else bound - cost
+                if seen.get(state, -1) >= left:
+                    pruned += 1
+                    break
+                seen[state] = left
             if bound is not None and cost + altcost > bound:
                 continue
             base = ch.choices[:i]
@@ -192,7 +205,7 @@ def explore(run_fn, bound=None, batch=False, max_execs=None, on_exec=None, roots
             capped = bool(stack)
             break
     return {"executions": execs, "max_points": maxpoints, "capped": capped,
-            "bound": bound}
+            "bound": bound, "pruned": pruned, "states": len(seen) if seen is not None else None}
 
 
 def first_level(run_fn, bound=None, batch=False):
@@ -201,7 +214,7 @@ def first_level(run_fn, bound=None, batch=False):
     ch = Chooser([], batch)
     run_fn(ch)
     roots = []
-    for i, (nopt, _c, _tags, altcost) in enumerate(ch.points):
+    for i, (nopt, _c, _tags, altcost, _st) in enumerate(ch.points):
         if bound is not None and altcost > bound:
             continue
         for alt in range(1, nopt):
